@@ -874,4 +874,67 @@ theorem search_spec (hE : EnvOK e L nextl0) {adj : Nat → List Nat}
 
 end search
 
+section wf
+
+theorem allBelow_iff {n : Int} {p : Nat → Bool} : allBelow n p = true ↔ ∀ k : Nat, (k : Int) < n → p k = true := by
+  unfold allBelow; rw [List.all_eq_true]; constructor
+  · intro h k hk; exact h k (List.mem_range.mpr (by omega))
+  · intro h k hk; exact h k (by have := List.mem_range.mp hk; omega)
+
+theorem mem_slice_iff {a : Array Int} {lo hi row : Int} (h0 : 0 ≤ lo) :
+    row ∈ slice a lo hi ↔ ∃ x, lo ≤ x ∧ x < hi ∧ row = rd a x := by
+  unfold slice
+  simp only [mem_map, mem_range'_1]
+  constructor
+  · rintro ⟨k, hk, rfl⟩; exact ⟨k, by omega, by omega, rfl⟩
+  · rintro ⟨x, h1, h2, rfl⟩; exact ⟨x.toNat, by omega, by rw [Int.toNat_of_nonneg (by omega)]⟩
+
+/-- the graph the search runs on: successor representatives of a representative `s < jcol`, in the
+storage order of its pruned list; nothing below a column that is not a representative -/
+def adjR (e : Env) (L : Array Int) (s : Nat) : List Nat :=
+  if repOf e s = s ∧ (s : Int) < e.jcol then adjG e L s else []
+
+theorem adjR_eq (e : Env) (L : Array Int) (s : Nat) (h1 : (s : Int) < e.jcol) (h2 : repOf e s = s) :
+    adjR e L s = adjG e L s := by simp [adjR, h1, h2]
+
+variable {i : Input}
+
+theorem wfIn_unpack (h : wfIn i = true) :
+    (0 ≤ i.jcol ∧ i.jcol < i.m ∧ (i.perm_r.size : Int) = i.m ∧ (i.marker.size : Int) = 3 * i.m) ∧
+    (i.jcol ≤ i.repfnz.size ∧ i.jcol ≤ i.parent.size ∧ i.jcol ≤ i.xplore.size ∧ 0 ≤ i.nseg) ∧
+    (i.nseg + i.jcol ≤ i.segrep.size + (visited0 i.jcol i.repfnz).length ∧ 0 ≤ rd i.xlsub i.jcol ∧
+      rd i.xlsub i.jcol + (unpivoted i.m i.perm_r).length ≤ i.lsub.size) ∧
+    (∀ r : Nat, (r : Int) < i.m → rd i.perm_r r = EMPTY ∨ (0 ≤ rd i.perm_r r ∧ rd i.perm_r r < i.jcol)) ∧
+    (∀ r : Nat, (r : Int) < i.m → mk2 i.env i.st0 r ≠ i.jcol) ∧
+    (∀ k : Nat, (k : Int) < i.jcol → (k : Int) ≤ repOf i.env k ∧ repOf i.env k < i.jcol ∧ repOf i.env (repOf i.env k) = repOf i.env k) ∧
+    (∀ s : Nat, (s : Int) < i.jcol → repOf i.env s = s →
+      0 ≤ rd i.xlsub s ∧ rd i.xlsub s ≤ rd i.xprune s ∧ rd i.xprune s ≤ rd i.xlsub i.jcol ∧
+      ∀ row ∈ adjRows i.env i.lsub s, 0 ≤ row ∧ row < i.m ∧ (rd i.perm_r row = EMPTY ∨ (s : Int) ≤ rd i.perm_r row)) ∧
+    (∀ row ∈ colRows i.lsubCol, 0 ≤ row ∧ row < i.m) := by
+  simp only [wfIn, Bool.and_eq_true, decide_eq_true_eq] at h
+  rcases h with ⟨⟨⟨⟨⟨⟨⟨⟨⟨⟨⟨⟨⟨⟨⟨h1, h2⟩, h3⟩, h4⟩, h5⟩, h6⟩, h7⟩, h8⟩, h9⟩, h10⟩, h11⟩, h12⟩, h13⟩, h14⟩, h15⟩, h16⟩
+  refine ⟨⟨h1, h2, h3, h4⟩, ⟨h5, h6, h7, h8⟩, ⟨h9, h10, h11⟩, ?_, ?_, ?_, ?_, ?_⟩
+  · intro r hr
+    have := allBelow_iff.mp h12 r hr
+    simpa using this
+  · intro r hr
+    have := allBelow_iff.mp h13 r hr
+    simpa using this
+  · intro k hk
+    have := allBelow_iff.mp h14 k hk
+    simpa [and_assoc] using this
+  · intro s hs hrs
+    have := allBelow_iff.mp h15 s hs
+    simp only [Bool.or_eq_true, Bool.and_eq_true, decide_eq_true_eq, List.all_eq_true, bne_iff_ne, ne_eq, decide_not,
+      Bool.not_eq_true', decide_eq_false_iff_not] at this
+    rcases this with h | h
+    · exact absurd hrs h
+    · obtain ⟨⟨⟨a, b⟩, c⟩, d⟩ := h
+      exact ⟨a, b, c, fun row hrow => by have := d row hrow; simpa [and_assoc] using this⟩
+  · intro row hrow
+    have := (List.all_eq_true.mp h16) row hrow
+    simpa using this
+
+end wf
+
 end Slu.ColDfs
